@@ -60,13 +60,17 @@ TAnn == /\ Ev.ev = "announce"
 TMembers == /\ Ev.ev = "members"
             /\ Verdict(IF SetOf(Ev.m) # mon.mem THEN "C10_membership_differs_from_admissions_and_departures" ELSE "ok")
             /\ UNCHANGED <<mon, pend, drift, nbeh>>
+\* C14 at the library level: views built from the announcements equal the membership at quiescence
+TViews == /\ Ev.ev = "views"
+          /\ Verdict(IF Ev.wrong # <<>> THEN "C14_view_does_not_converge_to_membership" ELSE "ok")
+          /\ UNCHANGED <<mon, pend, drift, nbeh>>
 TWitness == /\ Ev.ev = "witness"
             /\ Verdict(IF Ev.completed = 0 THEN "C13_D1_lifecycle_operations_blocked_forever" ELSE "ok")
             /\ UNCHANGED <<mon, pend, drift, nbeh>>
 TSkip == skip /\ Ev.ev # "New" /\ UNCHANGED <<mon, pend, drift, nbeh, nbad, skip>>
 
 Step == /\ l <= Len(Trace)
-        /\ (TNew \/ TSkip \/ (~skip /\ (TAdmit \/ TRefuse \/ TLeave \/ TLock \/ TEdit \/ TAnn \/ TMembers \/ TWitness)))
+        /\ (TNew \/ TSkip \/ (~skip /\ (TAdmit \/ TRefuse \/ TLeave \/ TLock \/ TEdit \/ TAnn \/ TMembers \/ TViews \/ TWitness)))
         /\ l' = l + 1 /\ UNCHANGED done
 Finish == /\ l = Len(Trace) + 1 /\ ~done /\ done' = TRUE
           /\ PrintT(<<"TRACE-DONE", l - 1, nbeh, drift, nbad>>)
